@@ -552,3 +552,27 @@ M('c04-media-range-quality-rounded', 'C04', 'R9', 'falcon/util/mediatypes.py',
   "        return cls(main_type, subtype, q, params)\n", "        return cls(main_type, subtype, round(q, 3), params)\n", also=('C11',))
 M('c04-media-range-quality-truncated-to-int-thousandths', 'C04', 'R9', 'falcon/util/mediatypes.py',
   "        return cls(main_type, subtype, q, params)\n", "        return cls(main_type, subtype, int(q * 1000) / 1000, params)\n", also=('C11',))
+
+# R4 (h): to_json hands to_dict() to the handler whole (wave 9: s9-c04-1)
+_TO_JSON_OBJ = "        obj = self.to_dict()\n        if handler is None:\n"
+M('c04-to-json-drops-falsy-members', 'C04', 'R4', 'falcon/http_error.py', _TO_JSON_OBJ,
+  "        obj = {key: value for key, value in self.to_dict().items() if value}\n        if handler is None:\n")
+M('c04-to-json-dict-of-filtered-pairs', 'C04', 'R4', 'falcon/http_error.py', _TO_JSON_OBJ,
+  "        doc = self.to_dict()\n        obj = dict((k, doc[k]) for k in doc if k == 'title' or doc[k] not in (None, '', 0))\n        if handler is None:\n")
+M('c04-to-json-pops-falsy-members-in-a-loop', 'C04', 'R4', 'falcon/http_error.py', _TO_JSON_OBJ,
+  "        obj = self.to_dict()\n        for key in list(obj):\n            if not obj[key]:\n                obj.pop(key)\n        if handler is None:\n")
+M('c04-to-json-stringifies-members', 'C04', 'R4', 'falcon/http_error.py', _TO_JSON_OBJ,
+  "        obj = {key: str(value) for key, value in self.to_dict().items()}\n        if handler is None:\n")
+
+# R4 (i): the public renderers return the serializer's bytes unchanged (wave 9: s9-c04-2)
+M2('c04-to-xml-strips-control-bytes', 'C04', 'R4', [
+    {'file': 'falcon/http_error.py', 'old': "class HTTPError(Exception):\n",
+     'new': "import re\n_XML_CONTROL_CHARS = re.compile(rb'[\\x00-\\x08\\x0b\\x0c\\x0e-\\x1f\\x7f-\\x9f]')\n\n\nclass HTTPError(Exception):\n"},
+    {'file': 'falcon/http_error.py', 'old': "        return self._to_xml()\n", 'new': "        return _XML_CONTROL_CHARS.sub(b'', self._to_xml())\n"},
+])
+M('c04-to-xml-reencoded-ascii-ignore', 'C04', 'R4', 'falcon/http_error.py', "        return self._to_xml()\n",
+  "        return self._to_xml().decode('utf-8').encode('ascii', 'ignore')\n")
+M('c04-to-xml-replaces-del-byte', 'C04', 'R4', 'falcon/http_error.py', "        return self._to_xml()\n",
+  "        doc = self._to_xml()\n        return doc.replace(b'\\x7f', b'')\n")
+M('c04-to-json-strips-high-bytes', 'C04', 'R4', 'falcon/http_error.py', "        return handler.serialize(obj, MEDIA_JSON)\n",
+  "        import re\n        return re.sub(rb'[\\x80-\\x9f]', b'', handler.serialize(obj, MEDIA_JSON))\n")
